@@ -10,6 +10,6 @@ rows=[]
 for m in sorted(glob.glob('/verif/seeded/*-agent*/meta.json')):
     d=json.load(open(m))
     rows.append('| %s | %s | %s | %s |' % (d['seed'], d['needs_to_manifest'].replace('|','/'), d['detection'].replace('|','/'), '<br>'.join('`%s`'%o for o in d['failing_obligations'])))
-s=s.rstrip('\n')+'\n'+marker+'\n\nEach directory holds `patch.diff`, `demo/` (the agent\'s demonstration; `demo/RUN.txt` is the command, run from the root of a tree with the patch applied), `report.md` (the agent\'s report) and `meta.json`. The agents saw only the text of the property and a scratch worktree without the contract files; `-agent2-` ones were also told, in one sentence, what the first change for that property was. See DESIGN.md 10.10.\n\n| seed | needs, in order to manifest | detection | failing obligation(s) |\n|---|---|---|---|\n'+'\n'.join(rows)+'\n'
+s=s.rstrip('\n')+'\n'+marker+'\n\nEach directory holds `patch.diff`, `demo/` (the agent\'s demonstration; `demo/RUN.txt` is the command, run from the root of a tree with the patch applied), `report.md` (the agent\'s report) and `meta.json`. The agents saw only the text of the property and a scratch worktree without the contract files; `-agent2-` to `-agent5-` ones (later rounds) were also told, in a sentence each, what the earlier changes for that property were, and asked for a different function and mechanism. See DESIGN.md 10.10.\n\n| seed | needs, in order to manifest | detection | failing obligation(s) |\n|---|---|---|---|\n'+'\n'.join(rows)+'\n'
 open(p,'w').write(s)
 print(len(rows),'rows')
